@@ -2,7 +2,9 @@
 ;; requires: htmllocal
 ;; ----- HTML attributes: xmlns declarations are dropped, prefixes are stripped -----
 (define-sort AH_S_html_Attribute () (Array Int (Array Int S_html_Attribute)))
-(define-fun isHtmlDecl ((a S_html_Attribute)) Bool (or (= (f_S_html_Attribute_Key a) "xmlns") (shasPrefix (f_S_html_Attribute_Key a) "xmlns:")))
+;; a namespace declaration is `xmlns`, `xmlns:p`, or - in foreign content, where the HTML5 "adjust foreign attributes" step
+;; splits the name - an attribute whose namespace is "xmlns" (xmlns:xlink is stored as namespace "xmlns", key "xlink")
+(define-fun isHtmlDecl ((a S_html_Attribute)) Bool (or (= (f_S_html_Attribute_Key a) "xmlns") (= (f_S_html_Attribute_Namespace a) "xmlns") (shasPrefix (f_S_html_Attribute_Key a) "xmlns:")))
 ;; heapfn: haPre
 (declare-fun haPre (AH_S_html_Attribute Slice Int) Int)
 (assert (forall ((h AH_S_html_Attribute) (s Slice)) (! (= (haPre h s 0) 0) :pattern ((haPre h s 0)))))
